@@ -243,6 +243,7 @@ impl Chain {
         self.storage = SimStorage::restore(&bytes);
         let q = SimQuerier {
             markers: self.querier.markers.clone(),
+            marker_required_attrs: self.querier.marker_required_attrs.clone(),
             attrs: self.querier.attrs.clone(),
             ..Default::default()
         };
